@@ -30,9 +30,14 @@ def main():
     tests = "--tests" in args
     only = args[args.index("--only") + 1] if "--only" in args else None
     props = args[args.index("--props") + 1].split(",") if "--props" in args else props_claimed()
+    only_for = args[args.index("--for") + 1] if "--for" in args else None
+    json_out = args[args.index("--json") + 1] if "--json" in args else None
+    results = []
     bad = 0
     for v in VARIANTS:
         if only and v["name"] != only:
+            continue
+        if only_for and not v.get("silent") and only_for not in v.get("expect", []):
             continue
         tmp = tempfile.mkdtemp(prefix="corsvar-")
         try:
@@ -71,6 +76,7 @@ def main():
                     ok = not fired
                 else:
                     ok = bool(expect) and all(p in fired for p in expect) if expect else True
+                results.append({"variant": v["name"], "kind": "silent" if v.get("silent") else "firing", "reported_by": fired, "as_expected": ok})
                 status = "ok " if ok else "BAD"
                 if not ok:
                     bad += 1
@@ -82,6 +88,8 @@ def main():
         finally:
             shutil.rmtree(tmp, ignore_errors=True)
     print("variants with unexpected outcome:", bad)
+    if json_out:
+        json.dump({"variants_run": len(results), "unexpected": bad, "results": results}, open(json_out, "w"))
     return 1 if bad else 0
 
 
